@@ -319,10 +319,11 @@ def call_bad(w, bad):
         return w.interpolate(n=bad["n"], method=bad["name"])
     if k == "interpolate_ends":
         nx = bad["new_x"] if bad.get("as_list") else np.array(bad["new_x"], dtype=float)
+        extra = dict(bad.get("fill") or {})     # fill values for points outside the data: valid keywords
         if bad.get("n") is not None:
             # documented: n is "ignored if new_x specified" - the grid is what counts, and it is a bad one
-            return w.interpolate(n=bad["n"], new_x=nx, method=bad["method"])
-        return w.interpolate(new_x=nx, method=bad["method"])
+            return w.interpolate(n=bad["n"], new_x=nx, method=bad["method"], **extra)
+        return w.interpolate(new_x=nx, method=bad["method"], **extra)
     if k == "interpolate_nothing":
         return w.interpolate(method=bad["method"])
     raise KeyError(k)
@@ -705,6 +706,10 @@ def make_machine(ctx, with_rejects=False, max_ops=10):
                 if data.draw(st.integers(0, 2)) == 0:
                     bad["n"] = data.draw(st.sampled_from([3, 2, 9, L]))
                     ctx.count("interpolate-ends:with-n")
+                if bad["method"] in ("linear", "constant") and data.draw(st.integers(0, 2)) == 0:
+                    # otherwise valid keywords of the method (fill values outside the data) do not make the grid valid
+                    bad["fill"] = data.draw(st.sampled_from([dict(left=0.0), dict(right=0.0), dict(left=-1.0, right=1.0)]))
+                    ctx.count("interpolate-ends:with-fill-keywords")
                 self._bad(bad)
 
     return RejectMachine
